@@ -1,6 +1,10 @@
 package http2
 
-import "fmt"
+import (
+	"fmt"
+
+	"github.com/valyala/fasthttp"
+)
 
 // C11 — the client honours GOAWAY; only a never-processed request is called
 // retryable.
@@ -87,4 +91,48 @@ func VerifH_C11_retry() {
 	vAssert(done && err != nil, "C11.retry.ends-with-an-error")
 	vAssert(!retryable(err), "C11.retry.processed-request-is-not-retryable")
 	vCover("C11.retry.done", done)
+}
+
+// A request is handed to the connection at the same moment the server's
+// GOAWAY arrives, in every order in which the write loop and the read loop can
+// take their turns: no HEADERS frame for a new stream is written once the
+// client has received the GOAWAY, and the request ends (written before the
+// GOAWAY and then failed or answered, or turned away unwritten).
+//
+//verif:harness prop=C11 unwind=200 timeout=600 sched=fork
+func VerifH_C11_race() {
+	cl := vStartClient()
+	first := cl.request("GET", "/1", nil)
+	cl.sent()
+	lateHeaders := false
+	cl.conn.onWrite = func(p []byte) {
+		// bufio hands whole frames to the socket: a HEADERS frame for a stream
+		// above 1 while GOAWAY has been received
+		if len(p) >= 9 && p[3] == 0x1 && p[8] > 1 && cl.c.goAway != 0 {
+			lateHeaders = true
+		}
+	}
+	req, res := &fasthttp.Request{}, &fasthttp.Response{}
+	req.Header.SetMethod("GET")
+	req.URI().SetHost("h")
+	req.URI().SetPath("/3")
+	req.URI().SetScheme("https")
+	second := &Ctx{Request: req, Response: res, Err: make(chan error, 1)}
+	cl.c.Write(second)                                                // queued, not yet taken by the write loop
+	cl.conn.in <- vFrame(0x7, 0x0, 0, []byte{0, 0, 0, 1, 0, 0, 0, 0}) // GOAWAY(last=1)
+	vSettle()
+	vAssert(!lateHeaders, "C11.race.no-stream-opened-after-goaway")
+	cl.feed(vFrame(0x1, 0x5, 1, vRespBlock(false, '1')))
+	close(cl.conn.in)
+	vSettle()
+	d1, e1 := first.outcome()
+	vAssert(d1 && e1 == nil, "C11.race.kept-request-completes")
+	done := false
+	select {
+	case <-second.Err:
+		done = true
+	default:
+	}
+	vAssert(done, "C11.race.second-request-ends")
+	vCover("C11.race.done", done)
 }
